@@ -25,7 +25,7 @@ Definition tseitin_numvar (E : list (Z * Z)) : Z := len E.
 Definition charge_parity (ch : option (list bool)) (S : Z -> bool) (n : Z) : bool :=
   fold_right xorb false (map (fun v => S v && tseitin_charge ch v) (rng n)).
 
-(* ---------- executable notions used only in the unproved full statements and in examples ---------- *)
+(* ---------- executable notions used only in the full statements below and in examples ---------- *)
 (* connected components by label propagation: every vertex starts with its own number, one round
    gives both ends of every edge the smaller label; n rounds suffice; a component is counted at the
    vertex that keeps its own number *)
@@ -60,7 +60,9 @@ Definition assignment_of (bs : list bool) : Z -> bool := fun v => nth (Z.to_nat 
 Definition count_models (nv : Z) (l : list ir) : Z :=
   len (filter (fun bs => irs_hold (assignment_of bs) l) (bool_vectors (Z.to_nat nv))).
 
-(* the two directions that are NOT proved here (tested by enumeration in harness/c02.py) *)
+(* the converse direction and the model count, stated here with the executable notions above; proved in
+   Fam_tseitin_Conv.v (tseitin_sat_of_even_components) and Fam_tseitin_Labels.v (tseitin_model_count),
+   and also tested by enumeration in harness/c02.py *)
 Definition tseitin_sat_of_even_components_statement : Prop :=
   forall n E ch, graph_wf n E = true ->
     (forall S, closed_under_edges S E -> charge_parity ch S n = false) ->
